@@ -159,6 +159,8 @@ static void upipe_buffer_free(struct upipe *upipe)
 {
     struct upipe_buffer *upipe_buffer = upipe_buffer_from_upipe(upipe);
 
+    /* may log about the buffers still held */
+    upipe_buffer_clean_input(upipe);
     upipe_throw_dead(upipe);
 
     struct uchain *uchain;
@@ -166,7 +168,6 @@ static void upipe_buffer_free(struct upipe *upipe)
         uref_free(uref_from_uchain(uchain));
 
     upipe_buffer_clean_output(upipe);
-    upipe_buffer_clean_input(upipe);
     upipe_buffer_clean_upump(upipe);
     upipe_buffer_clean_upump_mgr(upipe);
     upipe_buffer_clean_urefcount(upipe);
